@@ -4,4 +4,18 @@ NOT_APPLICABLE = {}
 
 
 def register(claim):
-    pass
+    claim("C12",
+          "Lean 4 theorems over a generic codec that *interprets* the record layouts regenerated from the C++ output()/input() bodies on every run: "
+          "load(write db) = db for every conforming database and all byte strings (c12_roundtrip), identical re-serialisation, formats 3.0-3.3 "
+          "(c12_old_minor), version gate, identifier mismatch, nothing merged unless the whole body decoded; layout mirror / separator "
+          "well-formedness / copy-completeness are decided by the kernel on the regenerated facts. Model and real library are run on the same "
+          "generated databases, all prefixes, several files per process.",
+          "Partial: rejection of every truncated prefix is not a theorem (correspondence + oracle over all prefixes instead). Corrupt non-prefix files are outside the property.",
+          "Lean 4 proof (generic codec round trip) + regenerated layout facts + differential correspondence", "DESIGN.md §5 C12")
+    claim("C20",
+          "Lean 4 theorems: guarded accessors return the neutral value off-range and the entry in range; every lookup answers from the current maps "
+          "for every sequence of requests/lookups/queries (cache invariant by induction over operations) and is sound/absent/exact; the unique-name "
+          "binary search terminates, finds stored names in a sorted table and returns -1 for every other key. The accessor guards are extracted from "
+          "the .I files on every run and decided by the kernel. Full index x position sweeps of all 170 interface functions run against the real library.",
+          "Memory safety itself is observed (harness, embedded fptr table), not proved. module/library name accessors are not modelled.",
+          "Lean 4 proof (invariant over op sequences, binary-search correctness) + extracted guard list + differential correspondence", "DESIGN.md §5 C20")
